@@ -13,4 +13,5 @@ INVARIANT IgnoreStops
 INVARIANT WireIffNotSuppressed
 INVARIANT ReactionBetweenStages
 INVARIANT IgnoredNeverReacts
+INVARIANT DisconnectingListenerStopsNothing
 INVARIANT EmitRows
